@@ -164,7 +164,15 @@ def one_pair(ctx, out, s0, s1):
     pool = ctx.pool
     t0 = adapter.build(s0, pool)
     t1 = adapter.build(s1, pool)
+    # some input nodes carry user metadata (a diff must neither change it nor write its marks into the inputs)
+    for t in (t0, t1):
+        for k, n in enumerate(t):
+            if k % 2 == 0:
+                n.set_meta("user", k)
+            if k % 3 == 0:
+                n.set_meta("dc", "mine")    # a user key that happens to be the name diff uses on ITS result nodes
     n0, n1 = names(t0.children), names(t1.children)
+    snap0, snap1 = full_snapshot(t0), full_snapshot(t1)
     ser0, ser1 = adapter.Serials(), adapter.Serials()
     j0, j1 = adapter.tree_json(t0, ser0, pool), adapter.tree_json(t1, ser1, pool)
     full = {}
@@ -178,8 +186,9 @@ def one_pair(ctx, out, s0, s1):
             out.fail(case, f"diff raised {e!r}")
             continue
         out.count((repr(s0), repr(s1), ordered, reduce), len(n0) + len(n1) >= 2 and n0 != n1)
-        if names(t0.children) != n0 or names(t1.children) != n1:
-            out.fail(case, "diff() modified an input tree")
+        if names(t0.children) != n0 or names(t1.children) != n1 or full_snapshot(t0) != snap0 or full_snapshot(t1) != snap1:
+            out.fail(case, "diff() modified an input tree (identity, data, data_id, metadata, parent or child lists of its nodes)")
+            snap0, snap1 = full_snapshot(t0), full_snapshot(t1)
         problems = []
         if not reduce:
             full[ordered] = sh
@@ -224,6 +233,12 @@ def one_pair(ctx, out, s0, s1):
     dd = t0.diff(t0.copy())
     if any(x[1] is not None for x in json.loads(json.dumps(shape(dd.children))) and _flat(shape(dd.children))):
         out.fail(dict(t0=s0, t1="copy"), f"diff with an identical copy carries marks: {shape(dd.children)}")
+
+
+def full_snapshot(tree):
+    """complete observable state of an input tree (public API only)"""
+    return [tree.count, tree.count_unique] + [
+        [id(n), id(n.data), repr(n.data_id), json.dumps(n.meta, sort_keys=True, default=str), id(n.parent), [id(c) for c in n.children]] for n in tree]
 
 
 def _flat(sh):
